@@ -213,6 +213,10 @@ def model_check(fam, prop, tier, wd):
             continue
         t0 = time.time()
         rc, out, td = vlib.tlc(spec, cfg, wd, workers=vlib.NCPU, timeout=3 * 3600, xmx="6g")
+        if rc < 0 or (rc != 0 and "OutOfMemoryError" in out):
+            # killed (e.g. by the kernel's OOM killer on a busy machine): once more, smaller
+            shutil.rmtree(td, ignore_errors=True)
+            rc, out, td = vlib.tlc(spec, cfg, wd, workers=max(2, vlib.NCPU // 2), timeout=3 * 3600, xmx="4g")
         states, trans = vlib.tlc_stats(out)
         res = {"cfg": cfg, "states": states, "transitions": trans, "wall_s": round(time.time() - t0, 1),
                "expected": expect, "cached": False}
